@@ -376,6 +376,28 @@ def write_replay(cid: str, plan: dict, v: dict, digest: str) -> str:
     return path
 
 
+def confirm_in_fresh_interpreter(path: str) -> None:
+    """The minimised plan was last executed in this process, after every candidate the minimiser tried: on a tree
+    that keeps state between streams (what C12 is about) the event log of that execution can differ from the one a
+    fresh interpreter produces.  The replay file has to reproduce in a fresh interpreter, so that is where its
+    digest is taken from when the two differ (same violation, same plan, same tape)."""
+    import re
+    import subprocess
+    try:
+        r = subprocess.run([os.path.join(VERIF, "check"), "--replay", path], capture_output=True, text=True,
+                           timeout=600, cwd=VERIF)
+        m = re.search(r"digest=DIFFERS ([0-9a-f]+)", r.stdout)
+        if r.returncode == 2 and m:
+            with open(path, encoding="utf-8") as fh:
+                doc = json.load(fh)
+            doc["digest_of_minimising_process"] = doc.get("digest")
+            doc["digest"] = m.group(1)
+            with open(path, "w", encoding="utf-8") as fh:
+                json.dump(doc, fh, ensure_ascii=True, indent=1)
+    except Exception:  # noqa: BLE001
+        pass
+
+
 def cmd_replay(path: str) -> int:
     with open(path, encoding="utf-8") as fh:
         doc = json.load(fh)
@@ -542,6 +564,7 @@ def cmd_check(cid: str, tier: str) -> int:
             v2 = next((v for v in res["violations"] if sig_of(v) == sig), slot["v"])
         small["tape"] = sim2.used_tape()
         path = write_replay(cid, small, v2, sim2.digest())
+        confirm_in_fresh_interpreter(path)
         replay_paths.append(path)
         print(f"VIOLATION property={cid} replay={path}")
         print(f"  signature={sk} count={slot['count']} first_run={slot['run']} shrink_reexecutions={nre}")
